@@ -242,7 +242,7 @@ def _const_post(op):
     want_eq = op == "Eq"
 
     def post(e):
-        from dv.cfe import i2d
+        from dv.cfe import nearest_fp
         r = e.result
         obj = getattr(r, "obj", None)
         a = e.op1
@@ -252,7 +252,7 @@ def _const_post(op):
             return And(e.err == 0, Or(a == e.op2, O.is_long(a), O.is_float(a)),
                        Implies(a == e.op2, equal),
                        Implies(And(a != e.op2, O.is_long(a)), (O.intval(a) == e.intval) == equal),
-                       Implies(And(a != e.op2, Not(O.is_long(a)), O.is_float(a)), z3.fpEQ(O.fval(a), i2d(64)(e.intval)) == equal))
+                       Implies(And(a != e.op2, Not(O.is_long(a)), O.is_float(a)), z3.fpEQ(O.fval(a), nearest_fp(e.intval)) == equal))
         if obj == "pyobj":
             return And(a != e.op2, Not(O.is_long(a)), Not(O.is_float(a)), r.off == O.richcmp_obj(a, e.op2, z3.IntVal(OPC[op])))
         return False
